@@ -736,6 +736,9 @@ class AddHook(Contract):
         pre = dict(none=[], same=[Mid], subclass=[Sub], superclass=[Base], subclass_and_same=[Sub, Mid])[inst['present']]
         c._Controller__hooks = list(c.hooks) + [k() for k in pre]
         st = State(c=c, inst=inst, Mid=Mid, before=list(c.hooks), call=lambda: c.add_hook(Mid))
+        # the parameter object holds the USER's hook list (the constructor stores that very list back into the user's dictionary)
+        st.param_list = c.params.hook_class
+        st.param_list_before = list(c.params.hook_class)
         return st
 
     def post(self, st, old, result, exc):
@@ -751,6 +754,8 @@ class AddHook(Contract):
         else:
             yield 'not_registered:one_instance_of_exactly_that_class_appended', len(now) == len(st.before) + 1 and type(now[-1]) is st.Mid
         yield 'exactly_one_instance_of_the_class_afterwards', sum(1 for h in now if type(h) is st.Mid) == 1
+        # frame: hooks added later (by convergence controllers, by the user) do not leak into the parameters, which are shared with the caller's dictionary
+        yield 'frame:hook_list_of_the_parameters_untouched', c.params.hook_class is st.param_list and list(st.param_list) == st.param_list_before
 
     def canary(self, st, old, result, exc):
         yield 'canary:never_adds', len(st.c.hooks) == len(st.before) and st.inst['present'] not in ('same', 'subclass_and_same')
